@@ -542,6 +542,11 @@ pub fn eval_misuse(sc: &Scenario) -> CaseResult {
     r.summary = summary(sc, &out);
     r.violation = first_violation(&out, MISUSE_PROPS);
     if r.violation.is_none() {
+        // "advancing ... before synchronisation" returns the documented error: a successful advance_frame while a
+        // remote address (player or spectator) has not produced Synchronized yet is this property's business too
+        r.violation = out.viols.iter().find(|v| v.clause == "C12.advanced_before_synchronized").map(|v| ("C16.advanced_before_synchronized".to_string(), format!("[{} tick {}] {}", v.node, v.tick, v.msg)));
+    }
+    if r.violation.is_none() {
         // twin: the same run with every misuse call removed, except that calls which poll internally
         // (advance_frame without inputs) are replaced by a bare poll at the same point
         let mut t = sc.clone();
